@@ -4,9 +4,12 @@
 (* properties, DESIGN.md section 6): the path of a re-observation request  *)
 (* from gossip to a chain watcher.                                         *)
 (*                                                                         *)
-(*   gossip envelope --Gossip!ObsReq--> verified request                   *)
-(*                   --Reobserve!Request--> queue of the watcher of the    *)
-(*                                          chain it names                 *)
+(*   pubsub message --P2PLoop!NetRecv--> (decodes, not the node's own,     *)
+(*                    a request, Gossip!ObsReq accepts) verified request   *)
+(*                  --Reobserve!Request--> queue of the watcher of the     *)
+(*                                         chain it names                  *)
+(*   own request (cleanup retry) --P2PLoop!LocalReq--> the same router,    *)
+(*                    once, plus a signed publication                      *)
 (*                                                                         *)
 (* Both components are the modules that are bound to the code by their own *)
 (* trace specifications (Trace_Gossip, Trace_Reobserve); this module only  *)
@@ -14,38 +17,53 @@
 (***************************************************************************)
 EXTENDS Integers, Sequences, FiniteSets, TLC
 
-CONSTANTS Nil, Cap,      \* Gossip
-          W, P           \* Reobserve
+CONSTANTS Nil, Cap, Self,   \* Gossip / P2PLoop
+          W, P              \* Reobserve
 
-VARIABLES gs, hb, fwd,                              \* Gossip
+VARIABLES gs, hb, fwd, obsQ, vaaQ, pub,             \* Gossip / P2PLoop
           now, cap, q, last, outcap, outq, ev,      \* Reobserve
           accepted                                  \* history: requests the verifier accepted
 
-G == INSTANCE Gossip
+G == INSTANCE P2PLoop
 R == INSTANCE Reobserve
 
-gvars == <<gs, hb, fwd>>
+gvars == <<gs, hb, fwd, obsQ, vaaQ, pub>>
 rvars == <<now, cap, q, last, outcap, outq, ev>>
 allvars == <<gvars, rvars, accepted>>
 
 GuardianInit(caps) ==
-    /\ G!GInit
+    /\ G!LInit
     /\ now = 0 /\ cap = caps /\ q = [c \in DOMAIN caps |-> <<>>] /\ last = <<>> /\ outcap = 1 /\ outq = <<>>
     /\ ev = [n |-> 0, kind |-> "Setup", c |-> "", tx |-> "", fwd |-> FALSE, ok |-> FALSE]
     /\ accepted = {}
 
-SetUpdate(S) == G!GSetUpdate(S) /\ UNCHANGED <<rvars, accepted>>
+SetUpdate(S) == G!LSetUpdate(S) /\ UNCHANGED <<rvars, accepted>>
 
 \* A gossiped re-observation request: verified, and only then handed to the router (p2p.Run sends the verified
 \* request on obsvReqC; handleReobservationRequests takes it from there).
 GossipRequest(e) ==
-    /\ G!ObsReq(e)
+    /\ G!ObsReq(e) /\ G!Quiet
     /\ IF G!Acceptable(e)
        THEN /\ accepted' = accepted \cup {e.req}
             /\ \E f \in BOOLEAN : R!Request(e.req.chain, e.req.tx, f)
        ELSE UNCHANGED <<rvars, accepted>>
 
-Heartbeat(e, st) == G!Heartbeat(e, st) /\ UNCHANGED <<rvars, accepted>>
+\* The same through the receive loop: any pubsub message; only what the loop puts on the router's channel goes on.
+NetMessage(m) ==
+    /\ G!NetRecv(m, FALSE)
+    /\ IF fwd' # <<>>
+       THEN /\ accepted' = accepted \cup {fwd'[1]}
+            /\ \E f \in BOOLEAN : R!Request(fwd'[1].chain, fwd'[1].tx, f)
+       ELSE UNCHANGED <<rvars, accepted>>
+
+\* The node's own request (a cleanup retry of the processor): looped back to its own router once, published signed.
+own == "own"
+OwnRequest(r, plen) ==
+    /\ G!LocalReq(r, plen)
+    /\ accepted' = accepted \cup {r}
+    /\ \E f \in BOOLEAN : R!Request(r.chain, r.tx, f)
+
+Heartbeat(e, st) == G!Heartbeat(e, st) /\ G!Quiet /\ UNCHANGED <<rvars, accepted>>
 Tick(dt) == R!Advance(dt) /\ UNCHANGED <<gvars, accepted>>
 WatcherTakes(c) == R!Drain(c) /\ UNCHANGED <<gvars, accepted>>
 
